@@ -88,7 +88,7 @@ theorem passes_spec (routeSize size : Nat) (hrs : 1 ≤ routeSize) (reverse : Bo
           rcases hexit with h | h
           · omega
           · have hd : b.length - a.length = 0 := by omega
-            simp only [hd, hp0] at this
+            simp only [hd] at this
             omega
       obtain ⟨edits2, e2, hall2, hsem2⟩ := ih (a.drop q.x.toNat) (b.drop q.y.toNat) es' _ _
         (by simp only [List.length_drop]; omega) (by simp only [List.length_drop]; omega)
